@@ -43,7 +43,7 @@ ASSUMPTIONS = [
 ]
 CAP_S = {"quick": 400, "thorough": 3000}
 
-BIND_NAMES = [T.MOD_CODE, T.MOD_DATA, T.MOD_EXT, "u1", "u2", "G", ".Lt"]
+BIND_NAMES = [T.MOD_CODE, T.MOD_DATA, T.MOD_EXT, "u1", "u2", "G", ".Lt", T.MOD_TEMP]
 BIND_VOCAB = (
     ["ord"]
     + ["lab:%s" % n for n in BIND_NAMES]
@@ -106,7 +106,7 @@ def bind_case(module, mod_syms, specs, allow, suffix):
     defs = [t.label for t in toks if t.kind == "label"]
     own = set(defs)
     errors = set()
-    if len(defs) != len(own) or own & set(T.MODULE_NAMES):
+    if len(defs) != len(own) or own & set(mod_syms):
         errors.add("MultipleDefinitionsError")
     unknown = []
     for t in toks:
@@ -535,8 +535,73 @@ def assign_case(case):
     return diffs, "ok:assign=%d" % case["n"]
 
 
+def extern_case(case):
+    """get_or_insert_extern_symbol for a name that is (a) defined in the module, (b) being inserted as a function by the same
+    context, (c) already an extern of the module, (d) new - with a patch that calls the name"""
+    import gtirb
+    import gtirb_functions
+    from gtirb_test_helpers import add_code_block, add_edge, add_function, add_proxy_block, add_symbol, add_text_section, create_test_module
+
+    from gtirb_rewriting import Constraints, Patch, RewritingContext
+
+    ir, m = create_test_module(gtirb.Module.FileFormat.ELF, gtirb.Module.ISA.X64)
+    _, bi = add_text_section(m, 0x1000)
+    b = add_code_block(bi, b"\x90\xc3")
+    add_edge(ir.cfg, b, add_proxy_block(m), gtirb.Edge.Type.Return)
+    add_function(m, "old", b)
+    h = add_code_block(bi, b"\xc3")
+    add_edge(ir.cfg, h, add_proxy_block(m), gtirb.Edge.Type.Return)
+    fsym = add_function(m, "helper_defined", h)
+    known_ext = add_symbol(m, "known_ext", add_proxy_block(m))
+    ctx = RewritingContext(m, gtirb_functions.Function.build_functions(m))
+    kind = case["kind"]
+    name = {"defined": "helper_defined", "inserted": "helper_new", "extern": "known_ext", "new": "brand_new"}[kind]
+    role = dict(r_name=kind, r_order=case["order"], r_call=case["call"])
+    want = None
+    diffs = []
+    try:
+        steps = ["ins", "get"] if case["order"] == "insert-first" else ["get", "ins"]
+        got = None
+        for st in steps:
+            if st == "ins" and kind == "inserted":
+                want = ctx.register_insert_function(name, Patch.from_function(lambda c: "movb $9, %bl\nret\n", Constraints()))
+            if st == "get":
+                got = ctx.get_or_insert_extern_symbol(name, "libx.so")
+        if case["call"]:
+            ctx.insert_at(b, 0, Patch.from_function(lambda c: "call %s\n" % name, Constraints()))
+        ctx.apply()
+    except Exception as e:
+        return [D("extern-exception", r_exc=type(e).__name__, msg=str(e)[:120], **role)], "raised"
+    if kind == "defined":
+        want = next(s_ for s_ in m.symbols if s_.name == name and s_.referent is h) if any(s_.referent is h for s_ in m.symbols) else None
+    elif kind == "extern":
+        want = known_ext
+    names = [s_.name for s_ in m.symbols]
+    dup = sorted({n for n in names if names.count(n) > 1})
+    if dup:
+        diffs.append(D("extern-duplicate-symbol-name", names=dup, **role))
+    if got is None or got.module is not m:
+        diffs.append(D("extern-symbol-not-in-module", **role))
+    if want is not None and got is not want and not (kind == "inserted" and case["order"] == "get-first"):
+        # (asked before the function was registered the name was still unknown: a fresh extern is a correct answer then,
+        #  the duplicate-name check above still applies)
+        diffs.append(D("extern-not-the-modules-symbol", **role))
+    if case["call"] and not diffs:
+        exprs = [e for e in bi.symbolic_expressions.values() if isinstance(e, gtirb.SymAddrConst) and e.symbol.name == name]
+        target = want if want is not None else got
+        if len(exprs) != 1 or exprs[0].symbol is not target:
+            diffs.append(D("extern-call-binds-to-another-symbol", n=len(exprs), **role))
+    return diffs, "ok:" + kind
+
+
 def funcs_cases(tier):
     out = []
+    for kind in ("defined", "inserted", "extern", "new"):
+        for order in ("insert-first", "get-first"):
+            for call in (0, 1):
+                if kind == "inserted" and order == "get-first":
+                    continue  # registering a function under a name that already exists is a documented TODO of register_insert_function
+                out.append({"fam": "extern", "kind": kind, "order": order, "call": call})
     for body in FUNC_BODIES:
         for n in (1, 2, 3):
             for ins in (0, 1, 2):
@@ -694,7 +759,7 @@ def run_task(task):
     T.validated(DIALECT)
     fam = task["fam"]
     if fam == "bind":
-        module, mod_syms = T.make_module(DIALECT, FMT)
+        module, mod_syms = T.make_module(DIALECT, FMT, temp_named=True)
         voc = BIND_VOCAB if task["voc"] == "full" else BIND_SMALL
         first = voc[task["first"]]
         lengths = range(1, task["L"] + 1)
@@ -711,6 +776,12 @@ def run_task(task):
         return res
     if fam == "funcs":
         for case in funcs_cases(task["tier"]):
+            if case["fam"] == "extern":
+                diffs, outcome = extern_case(case)
+                res.case(("extern", case["kind"], case["order"], case["call"]), nontrivial=True, outcome=outcome)
+                if diffs:
+                    res.bad(case, diffs)
+                continue
             if case["fam"] == "assign":
                 diffs, outcome = assign_case(case)
                 res.case(("assign", case["body"], case["n"]), nontrivial=case["n"] > 1, outcome=outcome)
@@ -763,7 +834,7 @@ def replay(case):
     T.validated(DIALECT)
     fam = case["fam"]
     if fam == "bind":
-        module, mod_syms = T.make_module(DIALECT, FMT)
+        module, mod_syms = T.make_module(DIALECT, FMT, temp_named=True)
         return bind_case(module, mod_syms, tuple(case["toks"]), case["allow"], case["suffix"])[0]
     if fam == "copies":
         return copies_case(case)[0]
@@ -771,6 +842,8 @@ def replay(case):
         return funcs_case(case)[0]
     if fam == "assign":
         return assign_case(case)[0]
+    if fam == "extern":
+        return extern_case(case)[0]
     if fam == "chunk":
         module, mod_syms = T.make_module(DIALECT, FMT)
         voc, implicit = CHUNK_FAMILIES[case["family"]]
